@@ -119,6 +119,11 @@ pub fn run_session(case: &Value) -> Value {
                         cmd["text"] = json!(t);
                         c_owned = cmd;
                     }
+                    None if crate::fromtext::panics(&t) => {
+                        // the interpreter's own parser panics on this text: enter it all the same, the guarded
+                        // call below observes the panic
+                        c_owned = json!({"k": "direct", "stmts": [{"k": "bad", "code": 2, "txt": "", "cp": []}], "text": t});
+                    }
                     None => {
                         // not expressible in the specification's AST: the session ends here, set aside
                         anomalies.push(json!({"cmd": t, "wait": "untranslatable"}));
